@@ -1,6 +1,6 @@
 (* C11 -- loom::sync::Arc: counter machine and drop ordering (local lemmas).
    Statements restated in full, closed with exact, assumptions printed. *)
-Require Import LV.Base LV.VV LV.VVFacts LV.Path LV.PathSpec LV.Prog LV.Objects LV.Exec LV.Atomic LV.Ops LV.Check LV.Ref LV.Outcome LV.Witness LV.SyncFacts LV.CheckFacts.
+Require Import LV.Base LV.VV LV.VVFacts LV.Path LV.PathSpec LV.Prog LV.Objects LV.Exec LV.Atomic LV.Ops LV.Check LV.Ref LV.Outcome LV.Witness LV.SyncFacts LV.CheckFacts LV.ExecFacts LV.SyncMono.
 
 (* clone increments the count and transfers no causality *)
 Theorem C11_clone_counts :
@@ -53,6 +53,19 @@ Theorem C11_drop_handover :
        b < length (e_threads e2) -> vle (caus_of e a) (caus_of e3 b).
 Proof. exact arc_drop_handover. Qed.
 Print Assumptions C11_drop_handover.
+
+(* GLOBAL: a drop happens-before the final drop over any number of intermediate steps *)
+Theorem C11_drop_handover_global :
+  forall (e : exec) (a k : nat) (u : bool) (e1 e2 : exec) (b : nat) 
+         (u2 : bool) (s2 : arc_state) (e3 : exec),
+       exec_micro e a (MArcDecPost k u) = MOk e1 ->
+       steps e1 e2 ->
+       get_arc e2 k = Some s2 ->
+       arc_cnt s2 = 1 ->
+       exec_micro e2 b (MArcDecPost k u2) = MOk e3 ->
+       b < length (e_threads e2) -> vle (caus_of e a) (caus_of e3 b).
+Proof. exact arc_drop_handover_global. Qed.
+Print Assumptions C11_drop_handover_global.
 
 (* get_mut / try_unwrap decide on the count at their step and acquire *)
 Theorem C11_get_mut_reads_count :
